@@ -90,7 +90,7 @@ def rotation_default(R, ctx):
                     f"{[e[1][0] for e in applied] or 'nothing'}: depending on the order of the builder calls the files are named `<basename>_<start time>_r...` instead of the "
                     "documented `<basename>_r...` (and a start time re-read from the clock at every name computation makes rotation and cleanup miss their own files)",
                     where=b.loc())
-    if n < 3:
+    if n < 2:
         raise CheckError(f"R16.10: only {n} builder rows store a rotation or a file spec with rotation configured (3 confirmed by hand: rotate, o_rotate, file_spec)")
 
 
